@@ -206,7 +206,7 @@ func GenerateConsts(t *rapid.T, use func(string) bool) *Program {
 		// uses
 		nu := g.intRange(4, 10, "nuse")
 		for u := 0; u < nu; u++ {
-			switch g.intRange(0, 11, "use") {
+			switch g.intRange(0, 13, "use") {
 			case 0, 1: // print expressions (all-constant ones are folded at compile time)
 				ty := rapid.SampledFrom(types).Draw(t, "ptype")
 				e1, _ := c.expr(ty, 2)
@@ -349,6 +349,33 @@ func GenerateConsts(t *rapid.T, use func(string) bool) *Program {
 					&While{Cond: &Bin{T: TBool, Op: "<", L: &Var{T: i32, Name: w}, R: &Var{T: i32, Name: k.name}}, Body: []Stmt{&Assign{LHS: &Var{T: i32, Name: w}, Op: "=", RHS: &Bin{T: i32, Op: "+", L: &Var{T: i32, Name: w}, R: &Lit{T: i32, I: big.NewInt(1)}}}}})
 				c.print(&Var{T: i32, Name: w})
 				g.use("consts.while_bound")
+			case 12, 13: // an index computed by a cast of a name - also casts that change the value (wrap-around)
+				vals := []int64{-1, -2, int64(-n), 0, 1, int64(n - 1), 254, 255, 256, 65535, 127, 128}
+				v := big.NewInt(vals[g.intRange(0, len(vals)-1, "castidx_v")])
+				k := c.declare(g.intRange(0, 1, "castidx_kind"), i32, &Lit{T: i32, I: v}, v, "k")
+				// mostly the casts whose value changes: negative -> unsigned, 128..255 -> i8
+				cands := []*Type{IntT(8, false), IntT(8, true), IntT(16, false), IntT(64, true), IntT(32, false)}
+				if v.Sign() < 0 {
+					cands = []*Type{IntT(8, false), IntT(16, false), IntT(32, false), IntT(8, false), IntT(64, true)}
+				} else if v.Int64() >= 127 && v.Int64() <= 256 {
+					cands = []*Type{IntT(8, true), IntT(8, true), IntT(8, true), IntT(8, false), IntT(16, false)}
+				}
+				t2 := rapid.SampledFrom(cands).Draw(t, "castidx_t")
+				ix := &Cast{T: t2, X: &Var{T: i32, Name: k.name}}
+				arrChoice := []int{0, 1, 1, 2, 2}[g.intRange(0, 4, "castidx_arr")]
+				if arrChoice == 2 && !et.Equal(i32) {
+					// an array literal outside a typed context takes the default literal type
+					arrChoice = 1
+				}
+				switch arrChoice {
+				case 0:
+					c.print(&Index{T: et, X: &Var{T: fat, Name: "fa"}, I: ix})
+				case 1:
+					c.print(&Index{T: et, X: &Var{T: dat, Name: "da"}, I: ix})
+				default:
+					c.print(&Index{T: et, X: mk(dat), I: ix})
+				}
+				g.use("consts.index_through_cast")
 			case 11: // new declaration in the middle (initialiser over earlier names)
 				ty := rapid.SampledFrom(types).Draw(t, "dtype2")
 				e, v := c.expr(ty, 2)
